@@ -7,12 +7,12 @@ import lexcorr as L
 from props import lexcommon
 
 LEVEL_NOTE = [
-    "theorems C12.tables_are_the_standard / peek_respell / bracket_spellings / bracket_plain / splice_between_tokens: the digraph and trigraph tables are exactly those of C11 §6.4.6 / §5.2.1.1; for every table entry and every continuation `peek` returns the standard character; braces and brackets give the same token kind in every spelling and the lexer continues at the same place; inter-token splices (both spellings) are skipped before any sub-lexer runs",
-    "tie: `lex` correspondence on respelled/spliced texts + regenerated dictionaries",
+    "theorems C12.lex_respell / tokens_respell (the FULL simulation, every text): a text and any respelling of it (C12.Respelled: punctuator characters written as table entries; `? < % :` kept only where both texts read them as themselves) are lexed item by item into the same kinds, values and bad lexemes — numbers, literals with escapes, identifiers, comments, operators by longest match, brackets, splices in both spellings inside and between tokens. Exceptions that are true of the code and part of the statement: the text of a block comment (tabs expanded by column) and everything after a stray backslash (a lexical error: one raw character is skipped)",
+    "theorems C12.tables_are_the_standard / peek_respell / respelled_reads_same / operator_longest_match / punctuator_token / bracket_spellings / splice_between_tokens: the tables are exactly those of C11 §6.4.6 / §5.2.1.1; `peek` returns the standard character for every entry and continuation; longest match (incl. the raw three-character look-ahead) is spelling-independent",
+    "tie: `lex` correspondence on respelled/spliced texts + regenerated dictionaries and pattern texts",
 ]
 PARTIAL = [
-    "C12_lex (full simulation: the whole token sequence of any safe respelling equals the original) and C12_longest_match for multi-character operators are not proved: decided per input by the respelling oracle (every operator x every spelling x following-character context exhaustively; programs with subsets of occurrences respelled and boundaries spliced)",
-    "C12_engine_partial (diagnostics unchanged apart from columns when braces/brackets are respelled): oracle on the implementation; depends on unported rules",
+    "C12_engine_partial (diagnostics unchanged apart from columns when braces/brackets are respelled): oracle on the implementation (random subsets, and one bracket at a time in both spellings on a text where brackets stand next to everything); depends on unported rules",
 ]
 
 ALT = {"{": ["<%", "??<"], "}": ["%>", "??>"], "[": ["<:", "??("], "]": [":>", "??)"], "#": ["%:", "??="],
